@@ -485,8 +485,35 @@ impl RoomAuthorisations {
             }
         }
 
+        //the source node of a deleted reference is modified and signed again: this requires the same rights as an update
         for node in &mut deletion_query.updated_nodes {
-            node.sign(&self.signing_key)?;
+            match node.name.as_str() {
+                system_entities::ROOM_ENT
+                | system_entities::AUTHORISATION_ENT
+                | system_entities::ENTITY_RIGHT_ENT
+                | system_entities::USER_AUTH_ENT => return Err(Error::DeleteNotAllowed()),
+                _ => {
+                    if let Some(room_id) = &node.node.room_id {
+                        match self.rooms.get(room_id) {
+                            Some(room) => {
+                                let right = if node.node.verifying_key.eq(&verifying_key) {
+                                    RightType::MutateSelf
+                                } else {
+                                    RightType::MutateAll
+                                };
+                                if !room.can(&verifying_key, &node.name, now, &right) {
+                                    return Err(Error::AuthorisationRejected(
+                                        node.name.clone(),
+                                        base64_encode(room_id),
+                                    ));
+                                }
+                            }
+                            None => return Err(Error::UnknownRoom(base64_encode(room_id))),
+                        }
+                    }
+                }
+            }
+            node.node.sign(&self.signing_key)?;
         }
 
         for edge in &deletion_query.edges {
